@@ -28,9 +28,16 @@ def impl_pack(g, i, bits, signed, v):
     return C.hexs(it.pack())
 
 
-def impl_unpack(data):
+_DEC = {}
+
+
+def impl_unpack(data, reuse=False):
+    """reuse=True: ONE CfgKeyData object decodes successive inputs (state must not carry over)"""
     from ubxlib.cfgkeys import CfgKeyData
-    it = CfgKeyData('x')
+    if reuse:
+        it = _DEC.setdefault('it', CfgKeyData('x'))
+    else:
+        it = CfgKeyData('x')
     n = it.unpack(bytearray(data))
     return f'{impl_item_token(it)} {n}'
 
@@ -59,10 +66,23 @@ def impl_valgetpoll(keys):
     return C.hexs(fr.data)
 
 
-def impl_valget(data):
+_VG = {}
+
+
+def impl_valget(data, reuse=False):
+    """reuse=True: the SAME response object decodes successive payloads (frame.data = ...; frame.unpack())"""
     from ubxlib.cfgkeys import CfgKeyData
     from ubxlib.ubx_cfg_valget import UbxCfgValGet
-    fr = UbxCfgValGet.construct(bytearray(data))
+    if reuse:
+        fr = _VG.setdefault('fr', UbxCfgValGet())
+        fr.data = bytearray(data)
+        try:
+            fr.unpack()
+        except Exception:
+            _VG.pop('fr', None)
+            raise
+    else:
+        fr = UbxCfgValGet.construct(bytearray(data))
     items = sorted(fr.f._fields.values(), key=lambda it: it.order)
     hdr = [it for it in items if not isinstance(it, CfgKeyData)]
     cfg = [it for it in items if isinstance(it, CfgKeyData)]
